@@ -5,8 +5,8 @@ import (
 	"sort"
 	"strings"
 
-	blncfg "github.com/containers/nri-plugins/pkg/apis/config/v1alpha1/resmgr/policy/balloons"
 	cfgpolicy "github.com/containers/nri-plugins/pkg/apis/config/v1alpha1/resmgr/policy"
+	blncfg "github.com/containers/nri-plugins/pkg/apis/config/v1alpha1/resmgr/policy/balloons"
 	tacfg "github.com/containers/nri-plugins/pkg/apis/config/v1alpha1/resmgr/policy/topologyaware"
 	resmgrapi "github.com/containers/nri-plugins/pkg/apis/resmgr/v1alpha1"
 
@@ -24,6 +24,8 @@ type Gen struct {
 	FillBias    bool // prefer creating until capacity is exhausted
 	MemPressure bool // memory limits near node/pool capacity
 	OptOuts     bool // generate opted-out containers more often
+	IsoBias     bool // machines with kernel-isolated CPUs: steer towards isolated exclusive grants
+	OutOfOrder  bool // lifecycle events the runtime may deliver out of order: remove without stop, pod stop/removal before its containers' events
 	NoReconf    bool
 	NoSync      bool
 	nPod, nCtr  int
@@ -117,10 +119,14 @@ func (g *Gen) availableAndReserved() (avail string, availSet []int, reserved str
 func (g *Gen) TAConfig() *Config {
 	g.gen++
 	avail, _, reserved := g.availableAndReserved()
+	pi := g.optBool()
+	if g.IsoBias && g.R.Chance(3, 4) {
+		pi = bp(true)
+	}
 	c := &tacfg.Config{
 		PinCPU:             !g.R.Chance(1, 10),
 		PinMemory:          !g.R.Chance(1, 7),
-		PreferIsolated:     g.optBool(),
+		PreferIsolated:     pi,
 		PreferShared:       nil,
 		ColocatePods:       g.R.Chance(1, 3),
 		ColocateNamespaces: g.R.Chance(1, 4),
@@ -352,6 +358,18 @@ func (g *Gen) RunPodStep(cfg *Config) *Step {
 	s := &Step{Op: "runpod", Pod: fmt.Sprintf("p%d", g.nPod), NS: g.namespace(cfg),
 		QoS: sysgen.Pick(g.R, []string{"Guaranteed", "Guaranteed", "Burstable", "Burstable", "BestEffort"}),
 		Ann: g.podAnnotations(cfg)}
+	if g.IsoBias && g.R.Chance(1, 2) {
+		s.QoS = "Guaranteed"
+		if s.NS == "kube-system" || strings.HasPrefix(s.NS, "reserved") || s.NS == "monitoring" {
+			s.NS = "default"
+		}
+		if g.R.Chance(1, 3) {
+			if s.Ann == nil {
+				s.Ann = map[string]string{}
+			}
+			s.Ann["prefer-isolated-cpus."+nsKey] = "true"
+		}
+	}
 	if g.R.Chance(1, 3) {
 		s.Labels = map[string]string{"tier": sysgen.Pick(g.R, []string{"perf", "batch", "misc", "x"})}
 		if g.R.Chance(1, 4) {
@@ -450,6 +468,9 @@ func (g *Gen) cpuReq(r *Runner, qos string) (req, lim int) {
 	switch qos {
 	case "Guaranteed":
 		opts := []int{100, 500, 999, 1000, 1000, 1500, 2000, 2000, 2500, 3000, 4000}
+		if g.IsoBias && g.R.Chance(2, 3) {
+			opts = []int{1000, 1000, 2000, 1000, 2000, 3000}
+		}
 		if g.R.Chance(1, 15) {
 			opts = []int{n*1000 + 1000}
 		}
@@ -632,6 +653,27 @@ func (g *Gen) NextStep(r *Runner) *Step {
 			return &Step{Op: "remove", Ctr: c.Key, Pod: c.Pod}
 		})
 	}
+	if g.OutOfOrder {
+		if len(live) > 0 {
+			add(3, func() *Step { c := sysgen.Pick(g.R, live); return &Step{Op: "remove", Ctr: c.Key, Pod: c.Pod} })
+		}
+		// StopPodSandbox may overtake the StopContainer events of the pod's containers (those come from the runtime's
+		// exit monitor); RemovePodSandbox cannot: the runtime removes the containers, with their events, first.
+		var busy []string
+		for _, k := range r.M.PodKeys() {
+			if p := r.M.Pods[k]; p.State == StRunning {
+				for _, c := range r.M.PodCtrs(k) {
+					if c.Live() {
+						busy = append(busy, k)
+						break
+					}
+				}
+			}
+		}
+		if len(busy) > 0 {
+			add(3, func() *Step { return &Step{Op: "stoppod", Pod: sysgen.Pick(g.R, busy)} })
+		}
+	}
 	if len(emptyPods) > 0 {
 		add(3, func() *Step {
 			k := sysgen.Pick(g.R, emptyPods)
@@ -693,6 +735,11 @@ func (g *Gen) ReconfStep(r *Runner) *Step {
 // InvalidConfig derives a configuration that must be rejected, of a PRNG-chosen kind.
 func (g *Gen) InvalidConfig(cur *Config) *Config {
 	c := cur.Clone()
+	if g.R.Chance(1, 2) {
+		// a rejected update usually differs from the configuration in force in more than its defect: start
+		// from a fresh random configuration so that anything applied before the rejection becomes visible
+		c = g.Config()
+	}
 	g.gen++
 	c.Gen = g.gen
 	online := g.M.OnlineCPUs()
